@@ -28,11 +28,34 @@
      "free"    what the property demands (used by trace validation): required when ALL primary failures are of that
                class, forbidden when NONE is (and none is an unsuccessful output), either otherwise
      "anyerr"  control (must violate FallbackRule): on any error
-   FailFast = TRUE is a control too (forkjoin's default: the first failure cancels the other workers). *)
+   FailFast = TRUE is a control too (forkjoin's default: the first failure cancels the other workers).
+
+   Nodes that IGNORE their request context (`deaf`; a request blocked on a mutex, in a DNS lookup, in a client that
+   does not look at ctx).  Orthogonal to the outcome class: a deaf node answers with its outcome when the environment
+   releases it (NodeDone), a deaf "hang" node never does; cancelling its worker context has no effect on it.
+   Which response decides (unchanged code): the caller's loop returns from INSIDE the range over the join channel,
+   and forkjoin's cancel() (default: no WithWaitOnCancel) only cancels the worker context and closes dropOutput --
+   it does not wait for the workers.  Hence
+     * provide AND submit (= provide with a predicate that accepts every nil-error result): the FIRST examined
+       result without error that passes the predicate decides; the call returns at once, whatever the other
+       requests do (slow, hung, deaf);
+     * a failure needs every result of the stage (WithoutFailFast), so a deaf node that has not answered keeps the
+       stage open -- the statement's "fails only when all primaries fail";
+     * the caller's cancellation is noticed when the NEXT result is examined (`if ctx.Err() != nil`): every running
+       request that honours its context answers at once with the context's error, so the call returns promptly
+       as long as ONE running request of the stage honours its context.
+   CancelMode selects what a cancelled call does while every running request of the stage is deaf:
+     "prompt"  the property: it returns with the context's error at once
+     "coded"   the unchanged code: it stays blocked on the join channel until a deaf node is released (its result
+               is then examined, ctx.Err() != nil -> the context's error)      [finding C19-cancel-waits-for-deaf-node]
+     "either"  both allowed (generic trace validation; the dedicated family validates with "prompt")
+   WaitMode = "all" is a control (must violate PromptReturn): the return waits until every started request has
+   returned (forkjoin.WithWaitOnCancel: the deferred cancel() blocks on <-done). *)
 EXTENDS Integers, Sequences, FiniteSets, TLC
-CONSTANTS FallbackMode, FailFast
+CONSTANTS FallbackMode, FailFast, CancelMode, WaitMode
 
 VARIABLES np, nb, style, outcome,   \* configuration: #primaries, #fallbacks, call style, outcome class per node
+          deaf,          \* configuration: nodes whose requests ignore their context
           phase,         \* "idle" (not called yet) | "prim" | "fall" | "done" (provide has its answer)
           started,       \* nodes whose API method has been invoked
           done,          \* nodes whose result has been examined by the caller's loop
@@ -41,10 +64,11 @@ VARIABLES np, nb, style, outcome,   \* configuration: #primaries, #fallbacks, ca
           delivered,     \* the call has returned to the caller
           cancelled,     \* the caller's context is cancelled / past its deadline
           usedFallback,
-          wcanc          \* started nodes that were still running when the answer was fixed: their worker context
+          wcanc,         \* started nodes that were still running when the answer was fixed: their worker context
                          \* is cancelled (deferred cancel() of forkjoin / the caller's own cancellation)
-cvars == <<np, nb, style, outcome>>
-vars == <<np, nb, style, outcome, phase, started, done, last, ret, delivered, cancelled, usedFallback, wcanc>>
+          relsd          \* deaf nodes of wcanc that the environment released after the answer was fixed
+cvars == <<np, nb, style, outcome, deaf>>
+vars == <<np, nb, style, outcome, deaf, phase, started, done, last, ret, delivered, cancelled, usedFallback, wcanc, relsd>>
 
 Prim == 1..np
 Fall == (np + 1)..(np + nb)
@@ -53,15 +77,22 @@ Styles == {"att", "sync", "submit"}    \* provide without predicate / provide wi
 ClassesOf(st) == IF st = "sync" THEN {"ok", "nok", "unavail", "other", "hang"} ELSE {"ok", "unavail", "other", "hang"}
 NoRet == [k |-> "none", by |-> 0]
 
-InitWith(p, b, st, o) ==
-  /\ np = p /\ nb = b /\ style = st /\ outcome = o
+InitWith(p, b, st, o, df) ==
+  /\ np = p /\ nb = b /\ style = st /\ outcome = o /\ deaf = df
   /\ phase = "idle" /\ started = {} /\ done = {} /\ last = 0 /\ ret = NoRet /\ delivered = FALSE
-  /\ cancelled = FALSE /\ usedFallback = FALSE /\ wcanc = {}
+  /\ cancelled = FALSE /\ usedFallback = FALSE /\ wcanc = {} /\ relsd = {}
 
 Active == IF phase = "prim" THEN Prim ELSE IF phase = "fall" THEN Fall ELSE {}
 
 \* the answer is fixed: runForkJoin returns, its deferred cancel() cancels the workers that are still running
 Finish(r, st, dn) == /\ ret' = r /\ phase' = "done" /\ wcanc' = st \ dn
+
+\* running requests of the stage / those of them that answer (with the context's error) when their context is cancelled
+Running == (Active \cap started) \ done
+HearsCancel == Running \ deaf
+\* a cancelled call MUST return now / MAY return now
+CtxDue == cancelled /\ phase \in {"prim", "fall"} /\ (CancelMode = "prompt" \/ HearsCancel # {})
+CtxMay == cancelled /\ phase \in {"prim", "fall"} /\ (CtxDue \/ CancelMode = "either")
 
 \* m := multi client; m.<Method>(ctx, ...)
 Call ==
@@ -70,7 +101,7 @@ Call ==
        THEN \* workCtx is born cancelled: the workers skip the work function, every result is ctx.Err()
             /\ Finish([k |-> "ctx", by |-> 0], {}, {}) /\ UNCHANGED started
        ELSE /\ phase' = "prim" /\ started' = Prim /\ UNCHANGED <<ret, wcanc>>
-  /\ UNCHANGED <<cvars, done, last, delivered, cancelled, usedFallback>>
+  /\ UNCHANGED <<cvars, done, last, delivered, cancelled, usedFallback, relsd>>
 
 FallbackChoices(i) ==
   IF nb = 0 THEN {FALSE}
@@ -83,11 +114,15 @@ FallbackChoices(i) ==
 
 \* one iteration of `for res := range join()`: the result of node i is examined
 NodeDone(i) ==
-  /\ phase \in {"prim", "fall"} /\ ~cancelled
-  /\ i \in (Active \cap started) \ done
+  /\ phase \in {"prim", "fall"} /\ ~CtxDue
+  /\ i \in Running
   /\ outcome[i] # "hang"
   /\ done' = done \cup {i}
-  /\ IF outcome[i] = "ok"
+  /\ IF cancelled
+       THEN \* every running request ignores the cancellation (CancelMode "coded"/"either"): the released node's
+            \* result is the next one examined, `ctx.Err() != nil` -> the context's error, whatever the result is
+            Finish([k |-> "ctx", by |-> 0], started, done') /\ UNCHANGED <<started, last, usedFallback>>
+     ELSE IF outcome[i] = "ok"
        THEN Finish([k |-> "ok", by |-> i], started, done') /\ UNCHANGED <<started, last, usedFallback>>
      ELSE
        /\ last' = i
@@ -103,21 +138,28 @@ NodeDone(i) ==
                               /\ UNCHANGED <<ret, wcanc>>
                    ELSE Finish(failRet, started, done') /\ UNCHANGED <<started, usedFallback>>
           ELSE Finish(failRet, started, done') /\ UNCHANGED <<started, usedFallback>>
-  /\ UNCHANGED <<cvars, delivered, cancelled>>
+  /\ UNCHANGED <<cvars, delivered, cancelled, relsd>>
 
 \* the caller cancels its context (or its deadline passes)
 CancelCaller == /\ ~cancelled /\ phase # "done" /\ cancelled' = TRUE
-                /\ UNCHANGED <<cvars, phase, started, done, last, ret, delivered, usedFallback, wcanc>>
+                /\ UNCHANGED <<cvars, phase, started, done, last, ret, delivered, usedFallback, wcanc, relsd>>
 
-\* every running node returns its context's error; the first of these results is examined: ctx.Err() != nil
-CtxDue == cancelled /\ phase \in {"prim", "fall"}
-CtxReturn == /\ CtxDue /\ Finish([k |-> "ctx", by |-> 0], started, done)
-             /\ UNCHANGED <<cvars, started, done, last, delivered, cancelled, usedFallback>>
+\* every running node that honours its context returns the context's error; the first of these results is examined:
+\* ctx.Err() != nil
+CtxReturn == /\ CtxMay /\ Finish([k |-> "ctx", by |-> 0], started, done)
+             /\ UNCHANGED <<cvars, started, done, last, delivered, cancelled, usedFallback, relsd>>
 
-\* the call returns to the caller
+\* the environment releases a deaf node whose answer nobody waits for any more
+Release(i) == /\ phase = "done" /\ ~delivered /\ i \in (wcanc \cap deaf) \ relsd /\ outcome[i] # "hang"
+              /\ relsd' = relsd \cup {i}
+              /\ UNCHANGED <<cvars, phase, started, done, last, ret, delivered, cancelled, usedFallback, wcanc>>
+
+\* the call returns to the caller; the requests still running have had their context cancelled, those that honour it
+\* have returned; WaitMode "all" (control): the return waits for the deaf ones as well
 RetDue == phase = "done" /\ ~delivered
-Deliver == /\ RetDue /\ delivered' = TRUE
-           /\ UNCHANGED <<cvars, phase, started, done, last, ret, cancelled, usedFallback, wcanc>>
+WaitsFor == IF WaitMode = "all" THEN (wcanc \cap deaf) \ relsd ELSE {}
+Deliver == /\ RetDue /\ WaitsFor = {} /\ delivered' = TRUE
+           /\ UNCHANGED <<cvars, phase, started, done, last, ret, cancelled, usedFallback, wcanc, relsd>>
 
 ---------------------------------------------------------------------------------------------------
 (* Properties (C19). *)
@@ -125,7 +167,8 @@ PrimOK == {i \in Prim : outcome[i] = "ok"}
 PrimCls == {outcome[i] : i \in Prim}
 Failed(i) == outcome[i] \in {"nok", "unavail", "other"}
 
-TypeOK == /\ started \subseteq Nodes /\ done \subseteq started /\ wcanc \subseteq started
+TypeOK == /\ started \subseteq Nodes /\ done \subseteq started /\ wcanc \subseteq started /\ deaf \subseteq Nodes
+          /\ relsd \subseteq wcanc \cap deaf
           /\ ret.k \in {"none", "ok", "nok", "err", "ctx"} /\ ret.by \in Nodes \cup {0}
           /\ (ret.k = "none") = (phase # "done")
           /\ phase \in {"idle", "prim", "fall", "done"}
@@ -144,11 +187,16 @@ NoFallbackBeforeAllFailed == (started \cap Fall # {}) => (usedFallback /\ \A i \
 FallbackRule == /\ usedFallback => (PrimCls \cap {"unavail", "nok"} # {})
                 /\ (ret.k \in {"err", "nok"} /\ ~usedFallback /\ nb > 0) => PrimCls # {"unavail"}
 \* does not wait for slower or hung nodes: as soon as a successful result has been examined the answer is fixed
-NoWaitForSlow == (\E i \in done : outcome[i] = "ok") => ret.k = "ok"
+\* (a result examined after the caller's cancellation is discarded: the context's error is the answer)
+NoWaitForSlow == (\E i \in done : outcome[i] = "ok") => (ret.k = "ok" \/ (cancelled /\ ret.k = "ctx"))
+\* does not wait for STUCK nodes either: once the answer is fixed the return needs no further move of the environment
+PromptReturn == RetDue => ENABLED Deliver
+\* cancelling the caller's context returns promptly: nothing but the return of the context's error can happen
+CancelPromptInv == (cancelled /\ phase \in {"prim", "fall"}) => CtxDue
 \* the workers of the nodes still running are cancelled once the answer is fixed
 WorkersCancelled == phase = "done" => wcanc = started \ done
 \* cancellation is the only source of a ctx answer
 CtxOnlyIfCancelled == ret.k = "ctx" => cancelled
 Safety == TypeOK /\ ExactlyOneAnswer /\ FailureIsOneNodes /\ FailOnlyIfAllFail /\ NoFallbackBeforeAllFailed
-          /\ FallbackRule /\ NoWaitForSlow /\ WorkersCancelled /\ CtxOnlyIfCancelled
+          /\ FallbackRule /\ NoWaitForSlow /\ WorkersCancelled /\ CtxOnlyIfCancelled /\ PromptReturn
 ====
